@@ -332,7 +332,8 @@ func CheckExec(prop, tier string) int {
 	if prop == "C03" || prop == "C13" {
 		type rc struct{ code, xcode int }
 		for i, wr := range results {
-			if wr.Crash != "" || IsCyclic(progs[i]) || len(progs[i].Roots) != 1 {
+			// only programs whose release orders were enumerated completely: the set of outcomes is then the full set
+			if wr.Crash != "" || !wr.Exhausted || IsCyclic(progs[i]) || len(progs[i].Roots) != 1 {
 				continue
 			}
 			seenRC := map[rc]bool{}
@@ -364,6 +365,26 @@ func CheckExec(prop, tier string) int {
 					}
 					if want == code {
 						ok = true
+					}
+				}
+				if !ok {
+					// scheduling inside the executor that the harness does not control could produce an
+					// outcome outside the enumerated set: insist that the mismatch is stable
+					for n := 0; n < 4 && !ok; n++ {
+						c2, _, e2 := RunCLI(progs[i], x)
+						if e2 != nil {
+							ok = true
+							break
+						}
+						for k := range seenRC {
+							want := k.code
+							if x {
+								want = k.xcode
+							}
+							if want == c2 {
+								ok = true
+							}
+						}
 					}
 				}
 				if !ok {
